@@ -157,6 +157,10 @@ def check_ubi(sh, mods, ubi, cell, U0, eps, case):
     if not close(tb, Bo): return bad("tensor_map.unitcell_to_b", {"got": tb, "expected": Bo})
     tu = tm.ubi_and_b_to_u(ubi, tb)
     if not close(tu, U): return bad("tensor_map.ubi_and_b_to_u", {"got": tu, "expected": U})
+    mt_in, ubi_in = mt.copy(), ubi.copy()
+    tm.mt_to_unitcell(mt_in, np.arange(6)); tm.ubi_to_mt(ubi_in); tm.fast_invert(ubi_in); tm.ubi_and_b_to_u(ubi_in, tb)
+    if not (np.array_equal(mt_in, mt) and np.array_equal(ubi_in, ubi) and np.array_equal(mt, np.dot(ubi, ubi.T))):
+        return bad("tensor_map:kernel-overwrites-its-input", {"mt_changed": not np.array_equal(mt_in, mt)})
     # the same kernels writing into a caller-supplied output array that holds old content (NaN, then 7.5): every element is defined by
     # the kernel, nothing of the old content survives
     for fill in (np.nan, 7.5):
@@ -223,10 +227,23 @@ def check_map(sh, tm, ubis, shape, mask, case):
         store["unitcell"] = tm.mt_to_unitcell(store["mt"], dummy6)
         store["B"] = tm.unitcell_to_b(store["unitcell"], dummy33)
         store["U"] = tm.ubi_and_b_to_u(arr, store["B"])
-    # TensorMap properties on the masked map (maps need 3 leading axes)
+    # the kernels read their inputs and write their output: the metric-tensor map handed to mt_to_unitcell (etc.) is still the metric tensor
+    for name, arr, store in (("full", ubis, full), ("masked", um, masked)):
+        again = tm.ubi_to_mt(arr)
+        if not np.array_equal(np.isnan(again), np.isnan(store["mt"])) or not np.array_equal(again[~np.isnan(again)], store["mt"][~np.isnan(again)]):
+            sh.violation("tensor_map.mt_to_unitcell:overwrites-the-map-it-was-given", case, {"map": name})
+            return False
+    if not np.array_equal(um[~mask], ubis[~mask]):
+        sh.violation("tensor_map:kernel-overwrites-its-UBI-input", case, {})
+        return False
+    # TensorMap properties on the masked map (maps need 3 leading axes); mt is read again AFTER the maps derived from it
     if len(shape) == 3:
         T = tm.TensorMap(maps={"UBI": um.copy()})
         tprops = {"UB": T.UB, "mt": T.mt, "unitcell": T.unitcell, "B": T.B, "U": T.U}
+        mt_again = T.mt
+        if not np.array_equal(np.isnan(mt_again), np.isnan(masked["mt"])) or not np.array_equal(mt_again[~mask], masked["mt"][~mask]):
+            sh.violation("TensorMap.mt:changes-after-unitcell-B-U-were-read", case, {})
+            return False
     else:
         tprops = {}
     for k in full:
@@ -338,11 +355,18 @@ def _run_grainhist(desc):
                 idx += 1
                 if idx % 4 != c:
                     continue
-                g = gm.grain(ua.copy())
+                work = ua.copy()                   # the caller's array: overwritten after the grain was built / updated from it
+                g = gm.grain(work)
                 for p in first:
                     getattr(g, p)
-                g.set_ubi(ub_.copy())
+                work[:] = ub_
+                g.set_ubi(work)
+                work *= 1.5
                 fresh = gm.grain(ub_.copy())
+                if not np.array_equal(g.ubi, ub_):
+                    sh.violation("grain.ubi:shares-the-array-it-was-built-from", {"kind": "grainhist", "first_ubi": a, "second_ubi": b,
+                                                                                  "read_before_set_ubi": list(first), "seed": seed_of()}, {})
+                    continue
                 for p in PROPS:
                     if not close(getattr(g, p), getattr(fresh, p), 1e-12):
                         sh.violation("grain.%s:stale-after-set_ubi" % p, {"kind": "grainhist", "first_ubi": a, "second_ubi": b,
